@@ -5,6 +5,7 @@ import random
 
 import common
 import harness
+import pgncorr
 
 PROP_FILES = ["N2k/Props/C04.lean"]
 LEAN_TARGETS = ["N2k.Props.C04"]
@@ -190,6 +191,13 @@ def search(ctx, broken, corr_broken):
         n += 1
         if got != exp:
             return [_viol("stale-frame", [(k, f) for f in arr1 + arr2], exp, got, stream=k)]
+    # single-frame traffic between the frames of a message — also address claims, with changing NAMEs, from the message's source and from its
+    # destination — is not a loss: the message completes as it does without it (public path, real per-PGN decoders)
+    hit, n2 = _interleaved_singles(ctx, rnd)
+    n += n2
+    if hit:
+        LAST_SEARCH_CANDIDATES = n
+        return [hit]
     # two decoder objects: frames given to one never complete, restart or swallow a message of the other
     for trial in range(300):
         k = rnd.randrange(len(KEYS))
@@ -208,6 +216,63 @@ def search(ctx, broken, corr_broken):
     return []
 
 
+def _interleaved_singles(ctx, rnd):
+    import copy
+    import deccorr
+    import enccorr
+    from nmea2000.decoder import NMEA2000Decoder
+    from nmea2000.encoder import NMEA2000Encoder
+    msgs, _ = enccorr.decoded_messages({"seed": ctx["seed"], "tier": "quick", "repo": common.REPO}, 1, 78)
+    fast = [(sfx, p, m) for sfx, p, m in msgs if p["Type"] == "Fast"]
+    db = pgncorr.Db(common.REPO)
+    t = deccorr.Traffic(rnd, db)
+    n = 0
+    for trial in range(150):
+        sfx, p, m = rnd.choice(fast)
+        pdu1 = (p["PGN"] >> 8) & 0xFF < 240
+        src, dst = rnd.choice([1, 2, 7]), (rnd.choice([1, 2, 7, 35]) if pdu1 else 255)
+        mm = copy.deepcopy(m)
+        mm.priority, mm.source, mm.destination = 3, src, dst
+        try:
+            pk = NMEA2000Encoder().encode_ebyte(mm)
+        except Exception:
+            continue
+        if len(pk) < 2:
+            continue
+        plain = NMEA2000Decoder()
+        ref = None
+        try:
+            for x in pk:
+                ref = plain.decode_tcp(x)
+        except Exception:
+            continue
+        if ref is None:
+            continue
+        d = NMEA2000Decoder()
+        hist, got = [], None
+        try:
+            for i, x in enumerate(pk):
+                if i > 0:
+                    for _ in range(rnd.choice([0, 1, 2])):
+                        who = rnd.choice([src, dst if dst != 255 else src, 9])
+                        inp = t.claim(who, rnd.choice(["garmin", "maretron", "airmar"])) if rnd.random() < 0.6 else t.single(who)
+                        y = deccorr._ebyte(inp[0], inp[1], inp[2], inp[3], inp[4])
+                        hist.append(y.hex())
+                        try:
+                            d.decode_tcp(y)
+                        except Exception:
+                            pass
+                hist.append(x.hex())
+                got = d.decode_tcp(x)
+        except Exception as e:
+            got = f"raised {type(e).__name__}"
+        n += 1
+        if got is None or isinstance(got, str) or [repr(f.value) for f in got.fields] != [repr(f.value) for f in ref.fields]:
+            return {"key": f"C04/interleaved-single-frames/{sfx}", "what": f"{sfx} from {src} to {dst}: with single-frame traffic (address claims with changing NAMEs, other PGNs) between its frames the last "
+                    f"frame returns {got if got is None or isinstance(got, str) else 'other values'}, without it the message", "replay": {"kind": "interleaved", "packets": hist, "fast": [x.hex() for x in pk]}}, n
+    return None, n
+
+
 def _with_gap(lst, pos):
     """the expected results of the frames of a message with one extra (stale) arrival inserted at `pos`"""
     return lst[:pos] + ["none"] + lst[pos:]
@@ -220,6 +285,22 @@ def _viol(kind, history, exp, got, stream=None):
 
 
 def replay(rp):
+    if rp.get("kind") == "interleaved":
+        harness.load_repo()
+        from nmea2000.decoder import NMEA2000Decoder
+        d, ref, got = NMEA2000Decoder(), NMEA2000Decoder(), None
+        r = None
+        for x in rp["fast"]:
+            r = ref.decode_tcp(bytes.fromhex(x))
+        for x in rp["packets"]:
+            try:
+                o = d.decode_tcp(bytes.fromhex(x))
+            except Exception:
+                o = None
+            if x == rp["fast"][-1]:
+                got = o
+        ok = r is not None and got is not None and [repr(f.value) for f in got.fields] == [repr(f.value) for f in r.fields]
+        return ok, f"the last frame returns {'the message' if ok else got}"
     harness.load_repo()
     if rp.get("kind") == "two-decoders":
         v = search({"seed": rp.get("seed", 0), "tier": "quick", "repo": common.REPO}, [], [])
